@@ -12,7 +12,11 @@ what the model returns.
 Oracle (independent of the model): never two contenders inside one FileLock path, never more than n inside a
 SemLock; an attempt fails only against a flock held by another contender or after the lock file was removed by
 another contender during the attempt; LockTimeout only at a clock reading >= start + timeout; a contender that
-runs a whole attempt undisturbed while nobody holds or attempts must acquire.
+runs a whole attempt undisturbed while nobody holds or attempts must acquire; a poll (_try_lock) fails only if one of
+its attempts met a holder, never on a free lock; cleanup_lockdir (a clean-up contender, modelled by Lock.stepc; lock
+file modification times run on the scheduler's clock) unlinks only files older than max_lock_time - after such a
+documented override two holders are counted, not reported; every raw write of the compact cache to a bundle happens
+while the bundle lock is held (run_bundle_scope).
 """
 import glob
 import itertools
@@ -34,13 +38,17 @@ LEVEL_TEXT = ('Theorems (P_C07.v) over the Gallina transition system of LockFile
               'refused => another process holds that inode), failed_check_means_held (identity check failed => another process was '
               'inside on that inode during the attempt and removed the file; history theorem), released_lock_acquirable (alone, <= 6 '
               'own calls), timeout_partial (LockTimeout only by a clock reading >= stop directly after a failed attempt that tried '
-              'all n files).  Mutual exclusion is REFUTED (3 processes, 11 calls) for the same system without the identity check of '
+              'all n files), unlock_idempotent; with cleanup_lockdir in the system (stepc/runc): mutex_with_cleanup and '
+              'semaphore_bounded_with_cleanup for schedules without an effective clean-up unlink, cleanup_age_guard (unlink only after a '
+              'modification-time reading below clock - max_lock_time), cleanup_override_refuted (the documented take-over of old '
+              'locks).  Mutual exclusion is REFUTED (3 processes, 11 calls) for the same system without the identity check of '
               'commit 493c25f.  The model is tied to the code by running real lock users on real files under a scheduler that '
               'serialises their system calls and replaying the observed trace through Lock.step in Coq.')
 LEVEL_NOTE = ('Trusted: Coq kernel, the hand-written model Lock.v, the scheduler harness.  Modelled, not verified: flock(2) '
               'semantics (exclusive per inode, owned by the open file description, released on close), unlink/open/stat '
               'semantics, no inode reuse while a descriptor is open, CPython reference counting closing a dropped LockFile. '
-              'Outside the statement: cleanup_lockdir removing lock files older than lock_timeout+10 s, file_permissions/chmod, '
+              'Not proved: that a held lock file never looks older than max_lock_time to cleanup_lockdir (needs modification times '
+              'and a bound on the holding time in the model; false without it).  Outside the statement: file_permissions/chmod, '
               'the Windows branch of lockfile.py, "continuously unavailable between two polls" (not expressible for a polling '
               'lock: timeout_partial says what is proved instead); released_lock_acquirable is for a process running alone '
               '(no fairness/liveness claim under contention).')
@@ -53,7 +61,9 @@ TRUSTED = ['model Lock.v hand-written from mapproxy/util/lock.py and mapproxy/ut
            'kernel flock/unlink/open semantics and CPython refcount-driven close are assumptions of the model']
 ASSUMPTIONS = ['flock is exclusive per inode, belongs to the open file description and is released when it is closed',
                'an inode number is not reused while a descriptor on it is open',
-               'every user of a lock path goes through FileLock/SemLock; nobody else unlinks lock files (cleanup_lockdir expiry excluded)',
+               'every user of a lock path goes through FileLock/SemLock or cleanup_lockdir; the lock-user theorems on `run` have no clean-up '
+               'process, those on `runc` require that no clean-up pass reaches its unlink',
+               'open(path, "w+") and the pid write set the modification time of the lock file to the current clock (harness: os.utime)',
                'a dropped LockFile closes its file at once (reference counting)']
 EXPLANATION = ('mutual exclusion / semaphore bound proved as an inductive invariant for all schedules; real lock code driven '
                'through chosen interleavings at system-call granularity and compared step by step with the model')
@@ -90,7 +100,9 @@ class GatedFile(object):
         return self._real.truncate(*a)
 
     def flush(self):
-        return self._real.flush()
+        r = self._real.flush()
+        self._sched.touch(self._real.fileno())
+        return r
 
     def close(self):
         if self.is_closed:
@@ -157,6 +169,10 @@ class Sched(object):
         self.open_files = [set() for _ in range(self.m)]
         self.max_inside = 0
         self.sem_slots = [None] * self.m  # per contender: lock files opened since the last random.randint
+        self.poll_cause = [0] * self.m    # per contender: attempts of the current poll that met a holder / a removal
+        self.cleaner = [None] * self.m    # per clean-up contender: {'expire':, 'm':} of the running cleanup_lockdir call
+        self.overridden = False
+        self.override = False             # the age guard of cleanup_lockdir fired: the documented override of old locks
 
     # ------------------------------------------------------------------ contender side
     def tid(self):
@@ -182,6 +198,14 @@ class Sched(object):
         else:
             self.weird.append('event %r of contender %r outside its step' % (ev, tid))
 
+    def touch(self, fd):
+        """the modification time of lock files is kept on the scheduler's clock: set when the file is created or
+        truncated by open(path, 'w+') and when the pid is written (what the kernel does with the real clock)"""
+        try:
+            os.utime(fd, (self.clock, self.clock))
+        except OSError as ex:
+            self.weird.append('utime failed: %r' % (ex,))
+
     def slot_of(self, path):
         if path == self.base:
             return 0
@@ -198,6 +222,7 @@ class Sched(object):
         tid = entry['pid']
         existed = os.path.lexists(path)
         real = open(path, mode, *a, **kw)
+        self.touch(real.fileno())
         ino = os.fstat(real.fileno()).st_ino
         if not existed:
             self.ino_ids[ino] = self.next_id
@@ -244,6 +269,8 @@ class Sched(object):
                 if holder is None or holder == tid:
                     self.oracle_fail.append(('attempt-failed-on-free-lock',
                                              'flock of contender %d refused although no other contender holds a flock on that file' % tid))
+                else:
+                    self.poll_cause[tid] += 1
                 self.att[tid]['failed'] = True
             raise
         entry['res'] = ('flock', True)
@@ -277,6 +304,8 @@ class Sched(object):
             if self.removes == a['removes0']:
                 self.oracle_fail.append(('attempt-failed-on-free-lock',
                                          'contender %d found its lock file replaced although nobody removed it during the attempt' % tid))
+            else:
+                self.poll_cause[tid] += 1
 
     def note_close(self, f, entry):
         """bookkeeping when file object f is closed (entry None = outside the schedule)"""
@@ -316,11 +345,24 @@ class Sched(object):
             return time.time()
         entry['res'] = ('time', self.clock)
         tid = entry['pid']
+        if self.conf['contenders'][tid].get('clean'):
+            self.cleaner[tid] = {'expire': self.clock - self.conf['contenders'][tid]['timeout'], 'm': None}
+            return float(self.clock)
         lc = self.lock_call[tid]
         if lc is None:
             self.lock_call[tid] = {'t0': self.clock, 'last': self.clock}
         else:
             lc['last'] = self.clock
+            # this reading follows a LockError of _try_lock: some attempt of this poll must have met a holder (or a
+            # removal by a holder); a poll that gives up without that, while the lock is free, is a failure to take a
+            # released lock (and, at the deadline, a LockTimeout on a lock that was not unavailable)
+            if self.poll_cause[tid] == 0:
+                free = self.free_slots(tid)
+                if free:
+                    self.oracle_fail.append(('lock-error-on-free-lock',
+                                             'contender %d: _try_lock failed without any attempt meeting a holder although '
+                                             'no flock is held on %s' % (tid, ', '.join(free))))
+            self.poll_cause[tid] = 0
             # this reading follows a LockError: a semaphore may give up only after trying each of its n files
             if self.conf['kind'] == 'sem' and self.sem_slots[tid] is not None:
                 n = self.conf['contenders'][tid]['n']
@@ -329,6 +371,78 @@ class Sched(object):
                                              'SemLock(n=%d) of contender %d raised LockError after trying only the files %s' % (
                                                  n, tid, sorted(self.sem_slots[tid]))))
         return float(self.clock)
+
+    def w_listdir(self, d):
+        entry = self.gate('list')
+        if entry is None:
+            return os.listdir(d)
+        names = sorted(os.listdir(d))
+        present = os.path.basename(self.base) in names and os.path.isfile(self.base)
+        entry['res'] = ('list', present)
+        if d != os.path.dirname(self.base) or [n for n in names if n != os.path.basename(self.base)]:
+            self.weird.append('listdir of %r -> %r' % (d, names))
+        return names
+
+    def w_getmtime(self, path):
+        entry = self.gate('mtime')
+        if entry is None:
+            return os.path.getmtime(path)
+        if self.slot_of(path) != 0:
+            self.weird.append('getmtime of %r' % (path,))
+        c = self.cleaner[entry['pid']]
+        try:
+            m = os.path.getmtime(path)
+        except OSError:
+            entry['res'] = ('mtime', None)
+            raise
+        entry['res'] = ('mtime', int(m))
+        if c is not None:
+            c['m'] = int(m)
+        return m
+
+    def w_unlink(self, path):
+        entry = self.gate('unlink')
+        if entry is None:
+            return os.unlink(path)
+        tid = entry['pid']
+        c = self.cleaner[tid]
+        if self.slot_of(path) != 0 or c is None:
+            self.weird.append('unlink of %r' % (path,))
+        # the contract of cleanup_lockdir: only files older than max_lock_time are removed
+        if c is not None and (c['m'] is None or not c['m'] < c['expire']):
+            holder = None
+            try:
+                holder = self.flock_holder.get(self.ino_ids.get(os.stat(path).st_ino, 777))
+            except OSError:
+                pass
+            self.oracle_fail.append(('cleanup-removed-young-lock-file',
+                                     'cleanup_lockdir (max_lock_time %s, clock %s) unlinks a lock file modified at %s%s' % (
+                                         self.conf['contenders'][tid]['timeout'], c['expire'] + self.conf['contenders'][tid]['timeout'], c['m'],
+                                         '' if holder is None else ' while contender %d holds its flock' % holder)))
+        try:
+            os.unlink(path)
+        except OSError:
+            entry['res'] = ('unlink', False)
+            raise
+        entry['res'] = ('unlink', True)
+        self.removes += 1
+        if c is not None and c['m'] is not None and c['m'] < c['expire']:
+            self.override = True
+
+    def free_slots(self, tid):
+        """lock files of contender tid's lock that are absent or carry no flock of any contender"""
+        c = self.conf['contenders'][tid]
+        paths = [self.base + str(i) for i in range(c['n'])] if self.conf['kind'] == 'sem' else [self.base]
+        free = []
+        for pth in paths:
+            try:
+                iid = self.ino_ids.get(os.stat(pth).st_ino, 777)
+            except OSError:
+                free.append(os.path.basename(pth) + ' (absent)')
+                continue
+            if self.flock_holder.get(iid) is None:
+                free.append(os.path.basename(pth) + ' (unlocked)')
+        return free
 
     def w_sleep(self, secs):
         entry = self.gate('sleep')
@@ -359,11 +473,12 @@ class Sched(object):
         self.tls.tid = tid
         lock = None
         try:
-            lock = self.make_lock(tid)
+            lock = None if self.conf['contenders'][tid].get('clean') else self.make_lock(tid)
             self.gate_start(tid)
             for what in self.conf['contenders'][tid]['program']:
                 if what == 'lock':
                     self.lock_call[tid] = None
+                    self.poll_cause[tid] = 0
                     try:
                         lock.lock()
                     except LockTimeout:
@@ -384,6 +499,17 @@ class Sched(object):
                     except BaseException as ex:  # noqa
                         self.weird.append('unlock() of contender %d raised %s: %s' % (tid, type(ex).__name__, str(ex)[:200]))
                         self.event(('raised', type(ex).__name__))
+                elif what == 'clean':
+                    import mapproxy.util.lock as L
+                    try:
+                        L.cleanup_lockdir(os.path.dirname(self.base), suffix='.lck',
+                                          max_lock_time=self.conf['contenders'][tid]['timeout'], force=True)
+                    except Abort:
+                        raise
+                    except BaseException as ex:  # noqa
+                        self.weird.append('cleanup_lockdir of contender %d raised %s: %s' % (tid, type(ex).__name__, str(ex)[:200]))
+                        self.event(('raised', type(ex).__name__))
+                    self.cleaner[tid] = None
                 elif what == 'drop':
                     # the idiom `with FileLock(...):` creates one object per critical section
                     lock = None
@@ -418,7 +544,9 @@ class Sched(object):
         self.inside[tid] = (k, iid)
         self.max_inside = max(self.max_inside, len(self.inside))
         limit = self.conf['limit']
-        if len(self.inside) > limit:
+        if len(self.inside) > limit and self.override:
+            self.overridden = True    # documented: a lock older than max_lock_time may be taken over
+        elif len(self.inside) > limit:
             self.oracle_fail.append(('too-many-inside,' + self.conf['kind'],
                                      '%d contenders inside (%s) where at most %d are allowed' % (
                                          len(self.inside), sorted(self.inside.items()), limit)))
@@ -506,9 +634,16 @@ class Patches(object):
         import mapproxy.util.lock as L
         import mapproxy.util.ext.lockfile as LF
         self.L, self.LF = L, LF
+        import logging
+        self.logger = logging.getLogger('mapproxy.util.lock')
+        self.level = self.logger.level
+        self.logger.setLevel(logging.ERROR)   # "could not remove old lock file" is an expected branch here
         self.saved = {'L.os': L.os, 'L.time': L.time, 'L.random': L.random, 'LF.os': LF.os, 'LF.fcntl': LF.fcntl}
         me = self
-        L.os = Proxy(real_os, remove=lambda p: me.sched.w_remove(p) if me.sched else real_os.remove(p))
+        L.os = Proxy(real_os, remove=lambda p: me.sched.w_remove(p) if me.sched else real_os.remove(p),
+                     listdir=lambda d: me.sched.w_listdir(d) if me.sched else real_os.listdir(d),
+                     unlink=lambda p: me.sched.w_unlink(p) if me.sched else real_os.unlink(p),
+                     path=Proxy(real_os.path, getmtime=lambda p: me.sched.w_getmtime(p) if me.sched else real_os.path.getmtime(p)))
         L.time = Proxy(real_time, time=lambda: me.sched.w_time() if me.sched else real_time.time(),
                        sleep=lambda s: me.sched.w_sleep(s) if me.sched else real_time.sleep(s))
         L.random = Proxy(real_random, randint=lambda a, b: me.sched.w_randint(a, b) if me.sched else real_random.randint(a, b))
@@ -519,6 +654,7 @@ class Patches(object):
 
     def __exit__(self, *a):
         L, LF = self.L, self.LF
+        self.logger.setLevel(self.level)
         L.os, L.time, L.random = self.saved['L.os'], self.saved['L.time'], self.saved['L.random']
         LF.os, LF.fcntl = self.saved['LF.os'], self.saved['LF.fcntl']
         try:
@@ -564,7 +700,40 @@ def gen_conf(rng, kind=None):
             rm = {'rm': True, 'keep': False, 'mixed': rng.random() < 0.5}[style]
             cont.append({'n': 1, 'rm': rm, 'timeout': rng.choice([0, 2, 4, 8, 30]),
                          'program': gen_program(rng, rng.choice([1, 2, 2, 3]), rng.random() < 0.5)})
+        if rng.random() < 0.3:
+            cont.append(cleaner(rng.choice([3, 10, 10, 1000]), rng.choice([1, 2, 3])))
     return make_conf(kind, cont)
+
+
+def cleaner(max_lock_time, runs):
+    """a process that runs cleanup_lockdir (TileLocker.lock does, on every 50th call)"""
+    return {'clean': True, 'n': 1, 'rm': False, 'timeout': max_lock_time, 'program': ['clean'] * runs}
+
+
+def cleanup_family(rng, count):
+    """Schedules around: A holds the lock, B's failed attempt truncates A's lock file, a clean-up pass runs while A is
+    inside, B (or D) tries again."""
+    out = []
+    base_seq = [0, 0, 0, 0, 1, 1, 1, 1, 2, 2, 2, 2, 1, 1, 1, 1, 1, 3, 3, 3, 3]
+    for v in range(count):
+        seq = list(base_seq)
+        if v > 0:
+            for _ in range(rng.choice([1, 1, 2, 3])):
+                r = rng.random()
+                if r < 0.4:
+                    seq.insert(rng.randrange(len(seq) + 1), rng.randrange(4))
+                elif r < 0.7:
+                    del seq[rng.randrange(len(seq))]
+                else:
+                    i, j = rng.randrange(len(seq)), rng.randrange(len(seq))
+                    seq[i], seq[j] = seq[j], seq[i]
+        rm = True if v == 0 else rng.random() < 0.8
+        cont = [{'n': 1, 'rm': rm, 'timeout': 30, 'program': ['lock', 'unlock', 'drop']},
+                {'n': 1, 'rm': rm, 'timeout': 30, 'program': ['lock', 'unlock']},
+                cleaner(10 if v == 0 else rng.choice([2, 10, 1000]), 1 if v == 0 else rng.choice([1, 2])),
+                {'n': 1, 'rm': rm, 'timeout': 0 if v else 30, 'program': ['lock', 'unlock']}]
+        out.append((make_conf('file', cont), [(p, 0 if v == 0 else rng.choice([0, 0, 1, 4]), 0) for p in seq], 'cleanup-family'))
+    return out
 
 
 def gen_schedule(rng, m, length):
@@ -630,7 +799,9 @@ def corpus_cases():
 
 def conf_lit(conf):
     def one(c):
-        if conf['kind'] == 'sem':
+        if c.get('clean'):
+            k = 'KClean'
+        elif conf['kind'] == 'sem':
             k = '(KSem %d%%nat)' % c['n']
         else:
             k = '(KFile %s)' % blit(c['rm'])
@@ -663,6 +834,12 @@ def obs_lit(e):
         op, r = 'ORemove', 'RRemove %s' % blit(res[1])
     elif kind == 'sleep':
         op, r = 'OSleep', 'RUnit'
+    elif kind == 'list':
+        op, r = 'OList', 'RList %s' % blit(res[1])
+    elif kind == 'mtime':
+        op, r = 'OMtime %s' % ('None' if res[1] is None else '(Some %s)' % zlit(res[1])), 'RUnit'
+    elif kind == 'unlink':
+        op, r = 'OUnlink', 'RRemove %s' % blit(res[1])
     else:
         return IMPOSSIBLE
     evs = e['events']
@@ -684,7 +861,9 @@ def compact_trace(trace):
 # ----------------------------------------------------------------------------- main
 
 def run_one(ctx, patches, conf, schedule, origin, seq_no, lockdir):
-    base = os.path.join(lockdir, 'l%d.lck' % seq_no)
+    d = os.path.join(lockdir, 'c%d' % seq_no)
+    os.makedirs(d, exist_ok=True)
+    base = os.path.join(d, 'l.lck')
     s = Sched(conf, base)
     patches.sched = s
     try:
@@ -696,6 +875,10 @@ def run_one(ctx, patches, conf, schedule, origin, seq_no, lockdir):
             os.unlink(fn)
         except OSError:
             pass
+    try:
+        os.rmdir(d)
+    except OSError:
+        pass
     return s, hang
 
 
@@ -709,6 +892,7 @@ def run(ctx):
         else:
             todo.append(c)
     todo += f5_family(rng, ctx.n(60, 600))
+    todo += cleanup_family(rng, ctx.n(60, 600))
     for _ in range(ctx.n(700, 6000)):
         conf = gen_conf(rng)
         todo.append((conf, gen_schedule(rng, len(conf['contenders']), rng.choice([10, 20, 30, 40, 60])), 'random'))
@@ -760,6 +944,9 @@ def run(ctx):
             ctx.count('timeouts', sum(1 for e in trace if ('timeout',) in e['events']))
             ctx.count('acquired', sum(1 for e in trace for ev in e['events'] if ev[0] == 'acquired'))
             ctx.count('max-inside=%d' % s.max_inside)
+            ctx.count('cleanup-unlinks', sum(1 for r in results if r == ('unlink', True)))
+            if s.overridden:
+                ctx.count('old-lock-taken-over-after-cleanup (documented override, not a failure)')
             if hang:
                 sig = 'hang'
                 if sig not in reported:
@@ -784,6 +971,119 @@ def run(ctx):
             descr.append(rep)
     ctx.corr_check('lock_trace', 'Lock', 'list pconf * list obs', terms,
                    "fun c => trace_ok true (fst c) (snd c)", lambda i: descr[i], shard=150)
+    run_bundle_scope(ctx)
+
+
+
+# ----------------------------------------------------------------------------- users of the lock: compact bundles
+
+def run_bundle_scope(ctx):
+    """The compact cache guards every modification of a bundle (.bundle / .bundlx) by the remove-on-unlock FileLock
+    `<bundle>.lck` (compact.py BundleV1/BundleV2 store_tiles, remove_tile).  The lock excludes other writers only
+    while it is held: every raw write() that reaches an existing bundle file through a read-write handle must
+    happen between lock() returning and unlock() being called.  (Buffered writes count when they reach the file.)"""
+    import io
+    rng = ctx.rng
+    try:
+        import mapproxy.cache.compact as C
+        from mapproxy.cache.tile import Tile
+        from mapproxy.image import ImageSource
+        from mapproxy.image.opts import ImageOptions
+        from mapproxy.util.lock import FileLock as RealFileLock
+    except Exception as ex:  # noqa
+        ctx.problem('harness', 'cannot import the compact cache: %r' % (ex,))
+        return
+    log = []
+    held = {}
+
+    class ScopeLock(RealFileLock):
+        def lock(self):
+            RealFileLock.lock(self)
+            held[self.lock_file] = held.get(self.lock_file, 0) + 1
+            log.append(('lock', os.path.basename(self.lock_file)))
+
+        def unlock(self):
+            if self._locked:
+                held[self.lock_file] = held.get(self.lock_file, 0) - 1
+                log.append(('unlock', os.path.basename(self.lock_file)))
+            RealFileLock.unlock(self)
+
+    class TracedRaw(io.FileIO):
+        def write(self, b):
+            lock_file = os.path.splitext(self.name)[0] + '.lck'
+            log.append(('write', os.path.basename(self.name), self.tell(), len(b), held.get(lock_file, 0) > 0))
+            return io.FileIO.write(self, b)
+
+    def traced_open(name, mode='r', *a, **kw):
+        if mode == 'r+b' and not a and not kw:
+            return io.BufferedRandom(TracedRaw(name, 'r+'))
+        return open(name, mode, *a, **kw)
+
+    def make_tile(coord, fill, size):
+        return Tile(coord, ImageSource(io.BytesIO(bytes([fill]) * size), image_opts=ImageOptions(format='image/png')))
+
+    saved_lock = C.FileLock
+    C.FileLock = ScopeLock
+    C.open = traced_open
+    base = ctx.tmpdir('bundles')
+    reported = False
+    try:
+        for case_no in range(ctx.n(24, 200)):
+            version = rng.choice(['v1', 'v2'])
+            cache_dir = os.path.join(base, 'c%d' % case_no)
+            level = rng.choice([0, 3, 12])
+            x0, y0 = (0, 0) if level < 7 else (rng.choice([0, 128, 4992]), rng.choice([0, 128, 896]))
+            ops = []
+            for _ in range(rng.choice([1, 2, 3, 5])):
+                kind = rng.choice(['store', 'store', 'store_many', 'remove'])
+                lim = min(128, 2 ** level)
+                coords = [(x0 + rng.randrange(lim), y0 + rng.randrange(lim), level)
+                          for _ in range(1 if kind != 'store_many' else rng.choice([2, 3, 5]))]
+                ops.append((kind, coords, rng.randrange(1, 255), rng.choice([1, 100, 4000, 9000, 70000])))
+            del log[:]
+            held.clear()
+            raised = None
+            try:
+                cache = (C.CompactCacheV1 if version == 'v1' else C.CompactCacheV2)(cache_dir)
+                for kind, coords, fill, size in ops:
+                    log.append(('op', kind, coords, size))
+                    if kind == 'remove':
+                        cache.remove_tile(Tile(coords[0]))
+                    elif kind == 'store':
+                        cache.store_tile(make_tile(coords[0], fill, size))
+                    else:
+                        cache.store_tiles([make_tile(c, fill, size) for c in coords])
+            except Exception as ex:  # noqa
+                raised = '%s: %s' % (type(ex).__name__, str(ex)[:200])
+            writes = [e for e in log if e[0] == 'write']
+            outside = [e for e in writes if not e[4]]
+            nlocks = sum(1 for e in log if e[0] == 'lock')
+            ctx.case(('bundle', version, tuple((k, tuple(c), sz) for k, c, _, sz in ops)), bool(writes),
+                     {'bundle_version': version, 'ops': [(k, c, sz) for k, c, _, sz in ops], 'raw_writes': len(writes),
+                      'locked_sections': nlocks})
+            ctx.count('origin=bundle-scope')
+            ctx.count('bundle-raw-writes', len(writes))
+            ctx.count('bundle-locked-sections', nlocks)
+            rep = {'origin': 'bundle-scope', 'bundle_version': version, 'ops': [[k, [list(c) for c in cs], f, sz] for k, cs, f, sz in ops],
+                   'events': [list(map(lambda v: list(v) if isinstance(v, tuple) else v, e)) for e in log][:120]}
+            if raised and not reported:
+                reported = True
+                ctx.fail('unexpected-exception', 'compact cache %s raised %s' % (version, raised), rep)
+            if outside and not reported:
+                reported = True
+                e = outside[0]
+                ctx.fail('bundle-write-outside-locked-section',
+                         'compact %s: a write of %d bytes at offset %d reached %s while its bundle lock was not held (%d of %d '
+                         'raw writes outside the locked section)' % (version, e[3], e[2], e[1], len(outside), len(writes)), rep)
+            if writes and nlocks == 0 and not reported:
+                reported = True
+                ctx.fail('bundle-write-outside-locked-section', 'compact %s modified a bundle without taking its lock' % version, rep)
+    finally:
+        C.FileLock = saved_lock
+        try:
+            del C.open
+        except AttributeError:
+            pass
 
 
 def count_replaced(trace):
